@@ -90,4 +90,97 @@ theorem report_domains (genes : List Gene) (hn : (genes.map (·.name)).Nodup)
   rw [h1, find?_unique genes hn g hgg]
   exact tableOf_isSome _ _ (domainFeatures_mem g.name g.strand g.domains [] _ h2)
 
+
+/-! ### `Module.start` / `Module.end` -/
+
+theorem startPos_eq (m : Module) (hne : m.components ≠ []) :
+    (m.startPos.toOption = moduleStart m.components) ∧ ∃ s, m.startPos = .ok s := by
+  unfold Module.startPos moduleStart
+  cases hc : m.components with
+  | nil => exact absurd hc hne
+  | cons c cs => exact ⟨rfl, c.start, rfl⟩
+
+theorem endPos_eq (m : Module) (hI : StateInv m) (hne : m.components ≠ []) :
+    (m.endPos.toOption = moduleEnd m.components) ∧ ∃ e, m.endPos = .ok e := by
+  unfold Module.endPos moduleEnd
+  rw [hI.end_]
+  cases hr : m.components.reverse with
+  | nil => exact absurd (List.reverse_eq_nil_iff.mp hr) hne
+  | cons last rest =>
+    simp only
+    cases endOf m.components with
+    | none => exact ⟨rfl, _, rfl⟩
+    | some e =>
+      cases rest with
+      | nil => exact ⟨rfl, _, rfl⟩
+      | cons second more =>
+        simp only
+        cases endTrimLabels.contains e.label with
+        | true => exact ⟨rfl, _, rfl⟩
+        | false => exact ⟨rfl, _, rfl⟩
+
+
+/-! ### `add_to_record` never fails when all genes lie on one strand -/
+
+theorem geneTables_strand (genes : List Gene) (l : String) (hit : Domain) (d : FDomain)
+    (h : geneTables genes l hit = some d) : ∃ g ∈ genes, d.strand = g.strand := by
+  unfold geneTables at h
+  cases hf : genes.find? (fun g => g.name == l) with
+  | none => rw [hf] at h; cases h
+  | some g =>
+    rw [hf] at h
+    obtain ⟨e, he, hd⟩ := tableOf_mem _ _ _ h
+    have := (domainFeatures_locus g.name g.strand g.domains [] e he).2
+    exact ⟨g, List.mem_of_find?_eq_some hf, by rw [← hd, this]⟩
+
+theorem construct_same_strand (ds : List FDomain) (s : Int) (hne : ds ≠ []) (hs : ∀ d ∈ ds, d.strand = s)
+    (t : ModType) (c st fi it : Bool) :
+    ModFeature.construct ds t c st fi it = .ok ⟨ds, t, c, st, fi, it⟩ := by
+  unfold ModFeature.construct
+  cases ds with
+  | nil => exact absurd rfl hne
+  | cons d rest =>
+    simp only
+    have : rest.all (fun x => x.strand == d.strand) = true := by
+      rw [List.all_eq_true]; intro x hx
+      rw [hs x (List.mem_cons_of_mem _ hx), hs d (List.mem_cons_self)]; simp
+    rw [if_pos this]
+
+/-- the whole `add_to_record` step for every module `generate_domains` reports, for genes that all
+    lie on one strand: the domain look-up and the feature constructor both succeed -/
+theorem report_total (genes : List Gene) (hn : (genes.map (·.name)).Nodup)
+    (hg : ∀ g ∈ genes, g.name.isEmpty = false ∧ ∀ d ∈ g.domains, (classify d.label).isSome = true)
+    (s : Int) (hs : ∀ g ∈ genes, g.strand = s) (out : List GeneResult) (ho : chain genes = .ok out) :
+    ∀ r ∈ out, ∀ m ∈ r.modules, ∃ f, m.report (geneTables genes) r.name = .ok f
+      ∧ f.domains.map (·.locus) = m.components.map (·.locus)
+      ∧ f.complete = m.isComplete ∧ f.starter = m.isStarterModule ∧ f.final = m.isTerminationModule
+      ∧ f.iterative = m.isIterative ∧ f.type = m.featureType := by
+  unfold chain at ho
+  cases hR : chainGo genes [] false with
+  | error e => rw [hR] at ho; cases ho
+  | ok R =>
+    rw [hR] at ho
+    injection ho with ho; subst ho
+    intro r hr m hm
+    obtain ⟨r0, hr0, rfl⟩ := List.mem_map.mp hr
+    simp only at hm
+    obtain ⟨hm0, hbig⟩ := List.mem_filter.mp hm
+    obtain ⟨ds, hl, hsome, hloc⟩ := report_domains genes hn hg R hR r0.name r0 hr0 m hm0
+    have hlen : ds.length = m.components.length := by
+      have := congrArg List.length hloc; simpa using this
+    have hne : ds ≠ [] := by
+      intro h; rw [h] at hlen; simp at hbig; simp at hlen; omega
+    have hstr : ∀ d ∈ ds, d.strand = s := by
+      intro d hd
+      have : some d ∈ ds.map some := List.mem_map.mpr ⟨d, hd, rfl⟩
+      rw [hsome] at this
+      obtain ⟨c, _, hc⟩ := List.mem_map.mp this
+      obtain ⟨g, hgm, hgs⟩ := geneTables_strand genes _ _ _ hc
+      rw [hgs, hs g hgm]
+    refine ⟨⟨ds, m.featureType, m.isComplete, m.isStarterModule, m.isTerminationModule, m.isIterative⟩,
+            ?_, hloc, rfl, rfl, rfl, rfl, rfl⟩
+    unfold Module.report Module.toFeature
+    simp only [hl]
+    exact construct_same_strand ds s hne hstr _ _ _ _ _
+
 end ASV.Modules
